@@ -125,6 +125,44 @@ def show(x):
     return x
 
 
+# ------------------------------------------------------------------ column labels
+
+# Cases (and the model) name columns 'x', 'y', 'g' (+ assigned 'z', 'w', 'v', 'r').  A case may carry
+# "labels": {internal name: real label}; the harness relabels at its boundary with pandas / streamz:
+# frames are built with the real labels (positional ints 0,1,2 as from pd.DataFrame(ndarray), floats 0.0.., False/True, ''),
+# every `f[...]`, `groupby(...)`, `g[...]`, `f[c] = ...` uses the real label, results indexed by column label are
+# mapped back.  The Lean model is label-agnostic and keeps receiving the internal names.
+_LABELS = {}
+
+
+class use_labels(object):
+    def __init__(self, case):
+        self.new = dict(case.get("labels") or {})
+
+    def __enter__(self):
+        global _LABELS
+        self.old, _LABELS = _LABELS, self.new
+
+    def __exit__(self, *a):
+        global _LABELS
+        _LABELS = self.old
+
+
+def L(name):
+    return _LABELS.get(name, name)
+
+
+def unL(label):
+    for k, v in _LABELS.items():
+        if v == label and type(v) is type(label):
+            return k
+    return label if isinstance(label, str) else str(label)
+
+
+def kwargable(name):
+    return isinstance(L(name), str)
+
+
 # ------------------------------------------------------------------ pandas helpers
 
 def pdmod():
@@ -142,8 +180,8 @@ def mk_frame(cols, batch, start=0):
     """batch: {col: [int|None]}"""
     pd = pdmod()
     n = len(batch[cols[0]]) if cols else 0
-    return pd.DataFrame({c: [NAN if v is None else float(v) for v in batch[c]] for c in cols},
-                        index=pd.RangeIndex(start, start + n), columns=cols).astype("float64")
+    return pd.DataFrame({L(c): [NAN if v is None else float(v) for v in batch[c]] for c in cols},
+                        index=pd.RangeIndex(start, start + n), columns=[L(c) for c in cols]).astype("float64")
 
 
 def concat(frames):
@@ -156,7 +194,7 @@ def concat(frames):
 def build_c(f, e):
     t = e[0]
     if t == "col":
-        return f[e[1]]
+        return f[L(e[1])]
     if t == "bin":
         return BIN_ALL[e[1]](build_c(f, e[2]), build_c(f, e[3]))
     if t == "binr":
@@ -189,11 +227,11 @@ def build_pipe(f, pipe, setitem=False, attr=False):
             f = f[build_m(f, st[1])]
         elif st[0] == "assign":
             if setitem and hasattr(f, "stream"):
-                f[st[1]] = build_c(f, st[2])        # streaming __setitem__ rebinds f.stream in place
+                f[L(st[1])] = build_c(f, st[2])     # streaming __setitem__ rebinds f.stream in place
             else:
-                f = f.assign(**{st[1]: build_c(f, st[2])})
+                f = f.assign(**{L(st[1]): build_c(f, st[2])})    # (string labels only: generators see to it)
         elif st[0] == "select":
-            f = f[list(st[1])]
+            f = f[[L(c) for c in st[1]]]
         else:
             raise ValueError(st)
     return f
@@ -222,7 +260,7 @@ def pandas_agg(f, target):
         return getattr(s, agg)()
     if kind == "frame":
         return f.size if agg == "size" else getattr(f, agg)()
-    g = f.groupby(target["key"][1] if target["by"] == "name" else build_c(f, target["key"]))[target["val"]]
+    g = f.groupby(L(target["key"][1]) if target["by"] == "name" else build_c(f, target["key"]))[L(target["val"])]
     if agg in ("var", "std"):
         return getattr(g, agg)(ddof=ddof)
     return getattr(g, agg)()
@@ -252,12 +290,13 @@ def streamz_agg(f, target, probe=lambda s: None):
     if kind == "frame":
         return f.size if agg == "size" else getattr(f, agg)()
     if target["by"] == "name":
-        gb = f.groupby(target["key"][1])
+        gb = f.groupby(L(target["key"][1]))
     else:
         key = build_c(f, target["key"])
         probe(key)
         gb = f.groupby(key)
-    g = getattr(gb, target["val"]) if target.get("attr") else gb[target["val"]]
+    val = L(target["val"])
+    g = getattr(gb, val) if (target.get("attr") and isinstance(val, str) and val.isidentifier()) else gb[val]
     if agg in ("var", "std"):
         return getattr(g, agg)(ddof=ddof)
     return getattr(g, agg)()
@@ -269,14 +308,14 @@ def universe_example(cols):
     pd = pdmod()
     alpha = [NAN] + [float(v) for v in VALS]
     rows = list(itertools.product(alpha, repeat=len(cols)))
-    return pd.DataFrame(rows, columns=cols, dtype="float64")
+    return pd.DataFrame(rows, columns=[L(c) for c in cols], dtype="float64")
 
 
 _EXAMPLES = {}
 
 
 def example_for(cols):
-    k = tuple(cols)
+    k = tuple((c, repr(L(c))) for c in cols)
     if k not in _EXAMPLES:
         _EXAMPLES[k] = universe_example(cols)
     return _EXAMPLES[k]
@@ -333,7 +372,7 @@ def _canon_result(target, r):
     if target["kind"] == "frame":
         if target["agg"] == "size":
             return frac(r)
-        return {str(k): frac(v) for k, v in r.items()}
+        return {unL(k): frac(v) for k, v in r.items()}
     return ser_items(r)
 
 
@@ -391,9 +430,33 @@ def opposite_infinities(prefix, target):
     elif target["kind"] == "frame":
         ops = [prefix[c] for c in prefix.columns]
     else:
-        ops = [prefix[target["val"]]]
+        ops = [prefix[L(target["val"])]]
     return any(bool(np.isposinf(o.to_numpy(dtype="float64")).any()) and bool(np.isneginf(o.to_numpy(dtype="float64")).any())
                for o in ops)
+
+
+def count_label_roles(ctx, case):
+    """which role does a falsy label play in this case"""
+    lab = case.get("labels") or {}
+    falsy = {n for n, v in lab.items() if not v}
+    t = dict(case["target"])
+    if t["kind"] == "group" and "by" not in t:           # statement program: the grouper is in the groupby statement
+        gs = [st for st in case["stmts"] if st[0] == "groupby" and st[1] == t["on"]][0]
+        t["by"], t["key"] = gs[3], gs[4]
+    if t["kind"] == "group":
+        if t.get("val") in falsy:
+            ctx.count("labels:falsy-value-column")
+        if t.get("by") == "name" and t["key"][1] in falsy:
+            ctx.count("labels:falsy-groupby-key")
+        elif t.get("by") == "series" and cols_in(t["key"]) & falsy:
+            ctx.count("labels:falsy-in-series-grouper")
+    if t["kind"] == "col" and "expr" in t and cols_in(t["expr"]) & falsy:
+        ctx.count("labels:falsy-selected-column")
+    for st in case.get("pipe", []) + case.get("stmts", []):
+        if st[0] in ("assign", "setitem") and (st[1] if st[0] == "assign" else st[2]) in falsy:
+            ctx.count("labels:falsy-assigned-column")
+        if st[0] == "select" and set(st[-1]) & falsy:
+            ctx.count("labels:falsy-in-selection")
 
 
 def classify(target, case, k, impl, want, history):
@@ -415,8 +478,16 @@ def classify(target, case, k, impl, want, history):
 
 
 def check_api(ctx, case, answers):
+    with use_labels(case):
+        return _check_api(ctx, case, answers)
+
+
+def _check_api(ctx, case, answers):
     t = case["target"]
     cols = case["cols"]
+    if case.get("labels"):
+        ctx.count("labels:api:" + case.get("label_scheme", "?"))
+        count_label_roles(ctx, case)
     nf = case["kind"] == "nonfinite"          # oracle-only stream (values may be +-inf): never compared with the model
     pre = "nonfinite:" if nf else ""
     ctx.count("%s:%s:%s" % ("nonfinite" if nf else "api", t["kind"], t["agg"]))
@@ -519,7 +590,7 @@ def check_api(ctx, case, answers):
                 return
             mfr = [[mfrac(v) for v in row] for row in a["frame"]["rows"]]
             got_fr = impl["frames"][k]
-            if got_fr is None or a["frame"]["cols"] != list(got_fr.columns) or mfr != frame_rows(a["frame"]["cols"], got_fr):
+            if got_fr is None or a["frame"]["cols"] != [unL(c) for c in got_fr.columns] or mfr != frame_rows(list(got_fr.columns), got_fr):
                 ctx.disagreement("batch %d: pipeline frame differs: impl %s, model %s"
                                  % (k, None if got_fr is None else got_fr.to_dict("list"), a["frame"]), case)
                 ok = False
@@ -575,7 +646,7 @@ def make_agg(name, ddof, sg):
     cls = {"gsum": A.GroupbySum, "gcount": A.GroupbyCount, "gsize": A.GroupbySize, "gmean": A.GroupbyMean,
            "gvar": A.GroupbyVar}[name]
     kw = {"ddof": ddof} if name == "gvar" else {}
-    return cls("x", grouper=None if sg else "g", **kw)
+    return cls(L("x"), grouper=None if sg else L("g"), **kw)
 
 
 def direct_state(name, acc):
@@ -629,7 +700,7 @@ def direct_pandas(name, ddof, frames, x=None):
     """pandas on the rows currently held (concatenation of `frames`)"""
     df = concat(frames) if len(frames) != 1 else frames[0]
     if not name.startswith("g"):
-        x = df["x"] if x is None else x
+        x = df[L("x")] if x is None else x
     if name in ("sum", "count", "mean"):
         return frac(getattr(x, name)())
     if name == "size":
@@ -638,7 +709,7 @@ def direct_pandas(name, ddof, frames, x=None):
         return frac(x.var(ddof=ddof))
     if name == "value_counts":
         return ser_items(x.value_counts())
-    g = df.groupby("g")["x"]
+    g = df.groupby(L("g"))[L("x")]
     if name == "gvar":
         return ser_items(g.var(ddof=ddof))
     return ser_items(getattr(g, name[1:])())
@@ -649,13 +720,13 @@ def direct_step_impl(name, agg, acc, df, sg, old=False, x=None):
     grouped = name.startswith("g")
     try:
         if grouped:
-            grouper = df["g"] if sg else None
+            grouper = df[L("g")] if sg else None
             if old:
                 return agg.on_old(acc, df, grouper=grouper)
             if acc is None:
                 acc = agg.initial(df, grouper=grouper)
             return agg.on_new(acc, df, grouper=grouper)
-        s = df["x"] if x is None else x
+        s = df[L("x")] if x is None else x
         if old:
             return agg.on_old(acc, s)
         if acc is None:
@@ -698,8 +769,19 @@ def direct_same(name, a, b):
 
 
 def check_direct(ctx, case, answers):
+    with use_labels(case):
+        return _check_direct(ctx, case, answers)
+
+
+def _check_direct(ctx, case, answers):
     name, ddof, sg = case["agg"], case.get("ddof", 1), case.get("sg", False)
     ctx.count("direct:" + name)
+    if case.get("labels"):
+        ctx.count("labels:direct:" + case.get("label_scheme", "?"))
+        if name.startswith("g") and not L("x"):
+            ctx.count("labels:falsy-value-column")
+        if name.startswith("g") and not L("g"):
+            ctx.count("labels:falsy-groupby-key")
     agg = make_agg(name, ddof, sg)
     acc = None
     held = []            # frames currently "in the window"
@@ -732,7 +814,7 @@ def check_direct(ctx, case, answers):
             # oracle: pandas on the rows currently held (only on_new histories are C06 proper; histories
             # with on_old check the windowed use of the same objects)
             rows = sum(len(frames[j]) for j in held)
-            if name == "mean" and sum(int(frames[j]["x"].count()) for j in held) == 0:
+            if name == "mean" and sum(int(frames[j][L("x")].count()) for j in held) == 0:
                 countless_now = True
             else:
                 countless_now = False
@@ -867,13 +949,35 @@ def gen_mexpr(rng, cols, depth):
     return ["not", gen_mexpr(rng, cols, depth - 1)]
 
 
-def gen_pipe(rng, cols):
+def gen_labels(rng, names, strings_only=False):
+    """None (the plain string labels) or a relabelling {internal name: real label} with falsy / non-string labels:
+    positional ints, floats, booleans, or '' for one column.  Non-string labels cannot be ASSIGNED in streamz
+    (`assign(**{label: ...})` needs string keywords; `sdf[0] = expr` raises TypeError on the unchanged tree), so
+    callers generate no assignment unless the scheme is 'empty'."""
+    r = rng.random()
+    if r < 0.62:
+        return None, "plain"
+    if strings_only or r > 0.9:
+        return {rng.choice(names): ""}, "empty"
+    base = [n for n in names if n in ("x", "y", "g")]
+    if r < 0.78:
+        vals, scheme = [0, 1, 2], "int"
+    elif r < 0.84:
+        vals, scheme = [0.0, 1.0, 2.0], "float"
+    else:
+        vals, scheme = [False, True, "k"], "bool"
+    vals = vals[:len(base)]
+    rng.shuffle(vals)
+    return dict(zip(base, vals)), scheme
+
+
+def gen_pipe(rng, cols, allow_assign=True, allow_select=True):
     """list of stages; keeps track of the columns available"""
     pipe = []
     cols = list(cols)
     for _ in range(rng.choice([0, 0, 1, 1, 2, 3])):
         r = rng.random()
-        if r < 0.5:
+        if r < 0.5 or (r < 0.85 and not allow_assign) or (r >= 0.85 and not allow_select):
             pipe.append(["filter", gen_mexpr(rng, cols, 1)])
         elif r < 0.85:
             name = rng.choice(["z", "w", rng.choice(cols)])
@@ -979,10 +1083,13 @@ def gen_api_case(rng, agg_choice=None):
         for r in rows[:rng.randint(1, min(3, n))]:
             r["x"] = None
     batches = split_rows(rng, rows, cols)
+    labels, scheme = gen_labels(rng, cols + ["z", "w"])
     while True:
-        pipe, cols_out = gen_pipe(rng, cols)
+        pipe, cols_out = gen_pipe(rng, cols, allow_assign=scheme in ("plain", "empty"), allow_select=scheme != "bool")
         case = {"kind": "api", "cols": cols, "batches": batches, "pipe": pipe,
                 "target": gen_target(rng, cols_out, agg_choice), "setitem": rng.random() < 0.3}
+        if labels:
+            case["labels"], case["label_scheme"] = labels, scheme
         if case_bounded(case):
             return case
 
@@ -1007,8 +1114,12 @@ def gen_direct_case(rng, name=None):
             ops.append(["old", pending.pop(0)])
         batches.append({c: [r[c] for r in gen_table(rng, 2, cols)] for c in cols})
         ops.append(["new", len(batches) - 1])
-    return {"kind": "direct", "agg": name, "ddof": rng.choice([0, 1, 1]), "sg": rng.random() < 0.5,
+    case = {"kind": "direct", "agg": name, "ddof": rng.choice([0, 1, 1]), "sg": rng.random() < 0.5,
             "batches": batches, "ops": ops}
+    labels, scheme = gen_labels(rng, cols)
+    if labels:
+        case["labels"], case["label_scheme"] = labels, scheme
+    return case
 
 
 def B(x, y=None, g=None):
@@ -1177,14 +1288,14 @@ def exec_prog(env, stmts):
         op = st[0]
         if op == "groupby":
             f = env[st[2]]
-            env[st[1]] = f.groupby(st[4][1] if st[3] == "name" else build_c(f, st[4]))
+            env[st[1]] = f.groupby(L(st[4][1]) if st[3] == "name" else build_c(f, st[4]))
         elif op == "setitem":
             f = env[st[1]]
-            f[st[2]] = build_c(f, st[3])
+            f[L(st[2])] = build_c(f, st[3])
         elif op == "col":
             env[st[1]] = build_c(env[st[2]], st[3])
         elif op == "select":
-            env[st[1]] = env[st[2]][list(st[3])]
+            env[st[1]] = env[st[2]][[L(c) for c in st[3]]]
         elif op == "filter":
             f = env[st[2]]
             env[st[1]] = f[build_m(f, st[3])]
@@ -1198,7 +1309,8 @@ def prog_agg(env, t, streaming):
     agg, ddof = t["agg"], t.get("ddof", 1)
     obj = env[t["on"]]
     if t["kind"] == "group":
-        g = getattr(obj, t["val"]) if t.get("attr") else obj[t["val"]]     # value column chosen at aggregation time
+        val = L(t["val"])                                # value column chosen at aggregation time
+        g = getattr(obj, val) if (t.get("attr") and isinstance(val, str) and val.isidentifier()) else obj[val]
         return getattr(g, agg)(ddof=ddof) if agg in ("var", "std") else getattr(g, agg)()
     if t["kind"] == "frame":
         return obj.size if agg == "size" else getattr(obj, agg)()
@@ -1292,10 +1404,18 @@ def prog_lines(case):
 
 
 def check_prog(ctx, case, answers):
+    with use_labels(case):
+        return _check_prog(ctx, case, answers)
+
+
+def _check_prog(ctx, case, answers):
     t = case["target"]
     cols = case["cols"]
     ctx.count("prog:%s:%s" % (t["kind"], t["agg"]))
     ctx.count("prog:pattern:" + case.get("pattern", "?"))
+    if case.get("labels"):
+        ctx.count("labels:prog:" + case.get("label_scheme", "?"))
+        count_label_roles(ctx, case)
     with warnings.catch_warnings():
         warnings.simplefilter("ignore")
         impl = run_prog_impl(case)
@@ -1370,6 +1490,10 @@ def gen_prog_case(rng):
         c = _gen_prog(rng, cols)
         if c is not None:
             c["batches"] = batches
+            used = sorted({st[2] for st in c["stmts"] if st[0] == "setitem"} | set(cols))
+            labels, scheme = gen_labels(rng, used, strings_only=True)     # in-place assignment needs string labels
+            if labels:
+                c["labels"], c["label_scheme"] = labels, scheme
             return c
 
 
@@ -1493,6 +1617,40 @@ def _gen_prog(rng, cols):
                          ["groupby", g_, fr, "series", gen_cexpr(rng, fcols[fr], 0)])
             t = {"kind": "group", "on": g_, "agg": rng.choice(GROUP_AGGS), "val": assigned[-1][1], "ddof": rng.choice([0, 1])}
     return {"kind": "prog", "pattern": pattern, "cols": list(cols), "stmts": stmts, "target": t}
+
+
+def label_corpus():
+    """falsy / positional labels in every role: groupby(2)[0], groupby(0)[1], sdf[0].sum(), sdf[[0, 2]], sdf[''] = expr ..."""
+    X, Y, G = ["col", "x"], ["col", "y"], ["col", "g"]
+    gb = [B([1, 2, None], y=[1, 0, 2], g=[0, 1, 2]), B([]), B([3, 3], y=[2, 2], g=[1, None]), B([5], y=[1], g=[0])]
+    cs = []
+    schemes = [("int", {"x": 0, "y": 1, "g": 2}), ("int", {"x": 1, "y": 2, "g": 0}), ("float", {"x": 0.0, "y": 1.0, "g": 2.0}),
+               ("bool", {"x": False, "y": True, "g": "k"}), ("empty", {"x": ""}), ("empty", {"g": ""})]
+    for scheme, lab in schemes:
+        for agg in GROUP_AGGS:
+            for by in ("name", "series"):
+                cs.append({"kind": "api", "cols": COLS, "batches": gb, "pipe": [], "labels": lab, "label_scheme": scheme,
+                           "target": {"kind": "group", "agg": agg, "val": "x", "by": by, "key": G, "ddof": 1}})
+        for agg in ("sum", "mean", "value_counts"):
+            cs.append({"kind": "api", "cols": COLS, "batches": gb, "pipe": [["filter", ["cmpr", "ge", X, 2]], ["select", ["g", "x"]]],
+                       "labels": lab, "label_scheme": scheme, "target": {"kind": "col", "agg": agg, "expr": X}})
+        cs.append({"kind": "api", "cols": COLS, "batches": gb, "pipe": [["select", ["x", "g"]]], "labels": lab, "label_scheme": scheme,
+                   "target": {"kind": "frame", "agg": "sum"}})
+        for name in ("gsum", "gmean", "gvar", "gsize"):
+            for sg in (False, True):
+                cs.append({"kind": "direct", "agg": name, "ddof": 1, "sg": sg, "labels": {k: v for k, v in lab.items() if k != "y"},
+                           "label_scheme": scheme, "batches": [{"x": b["x"], "g": b["g"]} for b in gb],
+                           "ops": [["new", i] for i in range(len(gb))]})
+    # in-place assignment of the '' column (existing and new), groupby object created before
+    for lab in ({"y": ""}, {"w": ""}, {"g": ""}):
+        col = "y" if "y" in lab else "w"
+        cs.append({"kind": "prog", "pattern": "groupby-name", "cols": COLS, "batches": gb, "labels": lab, "label_scheme": "empty",
+                   "stmts": [["groupby", "g1", "sdf", "name", G], ["setitem", "sdf", col, ["bin", "add", X, Y]]],
+                   "target": {"kind": "group", "on": "g1", "agg": "sum", "val": col, "ddof": 1}})
+        cs.append({"kind": "api", "cols": COLS, "batches": gb, "labels": lab, "label_scheme": "empty", "setitem": True,
+                   "pipe": [["assign", col, ["binr", "mul", X, 2]]],
+                   "target": {"kind": "group", "agg": "mean", "val": col, "by": "series", "key": G, "ddof": 1}})
+    return cs
 
 
 def prog_corpus():
@@ -1677,6 +1835,16 @@ def run(ctx):
         "assigned after the groupby object exists (pandas resolves by-name keys when the groupby is created, streamz per batch) - these two "
         "orders are not generated; the model receives the functional reading of the program (pipeline + target), except when a "
         "streaming-series grouper was computed from columns overwritten afterwards (oracle only, counted prog:not-sent-to-model)",
+        "column labels: a share of the api / direct / program cases (and a corpus) run on frames whose labels are falsy or not strings - "
+        "positional ints 0,1,2 (pd.DataFrame(ndarray)), floats 0.0,1.0,2.0, False/True, '' - permuted so that the value column, the by-name "
+        "grouping key, the column inside a streaming-series grouper, the aggregated / selected column each take the falsy label; the "
+        "harness relabels at its boundary (pandas oracle and streamz see the real labels, the label-agnostic model keeps the names x, y, g). "
+        "Kept out of the generated space: ASSIGNING a non-string label - pandas' own DataFrame.assign(**{0: ...}) is a TypeError and "
+        "streamz implements both sdf.assign and `sdf[0] = expr` through keyword arguments, so `sdf[0] = expr` raises TypeError "
+        "('keywords must be strings') on the unchanged tree although pandas accepts `df[0] = expr`; assignments (pipelines and in-place "
+        "programs) therefore only occur with string labels, including '' for an existing or a new column; attribute access (g.x) only "
+        "for identifier labels; False/True are not mixed with 0/1 (equal as dictionary keys) and a frame with boolean labels is never "
+        "indexed with a list (pandas reads a list of booleans as a row mask)",
         "non-finite values: the Lean model is over exact rationals and has no +-inf, so the cases of kind 'nonfinite' (+-inf written "
         "into the data, or produced by element-wise division by a column containing 0; placed in the first batch the aggregation "
         "receives, in a later batch, or after an initial empty batch) are ORACLE-ONLY: the real stream is compared with real pandas "
@@ -1685,7 +1853,7 @@ def run(ctx):
         "contribute to traces_validated_against_impl",
     ]
     n_api, n_direct, n_nonfinite, n_prog = (1200, 600, 300, 350) if not ctx.thorough() else (8000, 4000, 3000, 3000)
-    cases = corpus() + nonfinite_corpus() + prog_corpus()
+    cases = corpus() + nonfinite_corpus() + prog_corpus() + label_corpus()
     # every aggregation gets its share of api cases
     aggs = SCALAR_AGGS
     for i in range(n_api):
